@@ -677,6 +677,10 @@ inline void hub(TC& c, Method m, uint8_t sid, uint8_t inj, uint64_t* mem, const 
 	checkControl<F>(c, *in, m, sid, ev);
 	if (w.stopCase) return;
 	userCode<F>(c, *in, m, sid);
+	// (the draw is made for every chooser-driven instance so that a copy run in lock-step consumes the same decisions)
+	if (in->policy == POL_CHOOSER && w.ch.mode != Chooser::ENUM && in->st.op != OP_CTOR && in->st.op != OP_DTOR && w.ch.chance(1, 89)
+		&& in->slot == 0 && w.snapshotHook && !w.snapPending)
+		w.snapshotHook(*in, m);
 }
 
 }
